@@ -997,6 +997,13 @@ class Emitter:
                     call = 'M_%s(%s)' % (cn, ', '.join(conv(t, 'a_' + san(pn)) for (t, pn) in f.params))
                     if f.ret.k == 'void': bodyl = call + ';'
                     elif f.ret.k == 'ptr': bodyl = 'return (%s)%s;' % (self.ct(f.ret), call)
+                    elif self.isagg(f.ret):
+                        # two-register struct return: the model returns struct verif_ret2 {u64 a, b;}
+                        self.complete(f.ret)
+                        rr = self.resolve(f.ret)
+                        if rr.k != 'struct' or len(rr.a) > 2: raise IRError('model with unsupported aggregate return: ' + n)
+                        asg = ' '.join('x_.f%d = (%s)r_.%s;' % (i, self.ct(ft), 'ab'[i]) for i, ft in enumerate(rr.a))
+                        bodyl = 'struct verif_ret2 r_ = %s; %s x_; %s return x_;' % (call, self.ct(f.ret), asg)
                     else: bodyl = 'return %s;' % call
                     shims.append(self.proto(f) + ' { ' + bodyl + ' }')
                 elif n in self.stubs:
@@ -1021,9 +1028,10 @@ class Emitter:
             cn = self.gn(n)
             if g.tls: self.warnings.append('thread_local global %s treated as plain global' % n)
             if g.init is None:
-                if cn in self.model_names or True:
-                    gdecls.append('extern %s %s;' % (self.ct(g.ty), cn))
-                    uses.append('G_' + cn)
+                # external object (vtable of a libstdc++ class, __dso_handle ...): zero-filled stand-in of the declared type
+                gdecls.append('%s %s;' % (self.ct(g.ty), cn))
+                if not n.startswith('_ZTV') and n != '__dso_handle':
+                    self.warnings.append('external global %s defined as a zero-filled object' % n)
                 continue
             gdecls.append('%s%s %s;' % ('const ' if g.const and False else '', self.ct(g.ty), cn))
             gdefs.append('%s %s = %s;' % (self.ct(g.ty), cn, self.init(g.init)))
